@@ -94,8 +94,9 @@ class RefClient:
                 items.append(("s", bytes(out)))
                 pos = i + 1
                 continue
-            if c == b"{" and line.endswith(b"}") and line[pos + 1:-1].isdigit():
-                n = int(line[pos + 1:-1])
+            if c == b"{" and line.endswith(b"}") and line[pos + 1:-1].rstrip(b"+").isdigit() and line[pos + 1:-1].count(b"+") <= 1:
+                # {n}; a peer that writes {n+} (which only clients may) means the same thing
+                n = int(line[pos + 1:-1].rstrip(b"+"))
                 data = self._exact(n)
                 items.append(("s", data))
                 line = self._line()      # rest of the logical line
